@@ -116,6 +116,12 @@ impl Prop for C10 {
         } else {
             vec![("main.s".to_string(), lines)]
         };
+        if files.len() > 1 && ch.chance(1, 5) {
+            // twin lines: the first line of two files jumps to an undefined label
+            let k = 1 + ch.below(files.len() - 1);
+            files[0].1.insert(0, Line::Ins(Ins::new("j", vec![Opd::L("nowhereA".into())])));
+            files[k].1.insert(0, Line::Ins(Ins::new("j", vec![Opd::L("nowhereB".into())])));
+        }
         if files.len() > 1 && ch.chance(1, 2) {
             gen::place_in_dirs(&mut files, ch, true);
         }
